@@ -21,7 +21,9 @@ PLAN = dict(
                     "positions; freshen yields distinct ids and keeps kinds/types/first occurrences; lin_check is sound for the inductive discipline lin_wt; "
                     "linearize_exact: for EVERY program satisfying prog_ok (typed non-linearly, unique binders, ids <= max_id) every definition of the model's "
                     "output passes lin_check - all nine statement forms including Create's context surgery and renaming; operands of op/ifc/print/exit stay "
-                    "in the environment passed on; binders stay unique and every id bound in the output is <= the new max_id.  "
+                    "in the environment passed on; binders stay unique and every id bound in the output is <= the new max_id; "
+                    "linearize_preserves: forward simulation from the named reference machine on p to the linear (positional) reference machine on linearize p - "
+                    "every run ending in exit or undefined arithmetic is reproduced with the same prints and outcome, stable under more fuel (closures, calls, renaming included).  "
                     "correspondence: model output = Rust output on every case; executable property (lin_check + both reference machines) on the Rust output",
         assumptions=[
             "reference semantics of AxCut (coq/Sem/AxSem.v: named machine for non-linear programs, positional machine = the list discipline of axcut2backend's code_statement) is the intended meaning; every decision is listed at the top of that file",
